@@ -289,7 +289,7 @@ def step (g : Guards) (st : St) (line : String) : St × String :=
 def proto : OxiddModel.Proto := { σ := St, init := {}, step := step Guards.code }
 
 /-- the code with the one repair that was not applied (exporter: binary mode only if every terminal
-is displayed as `T`, /verif/work/proposed_fixes/Dddmp-2.diff, export hunk); to be registered as
+is displayed as `T`, /verif/work/proposed_fixes/Dddmp-2-export-mode-unapplied.diff); to be registered as
 `dddmp` instead of `proto` if that lands -/
 def protoFixed : OxiddModel.Proto := { σ := St, init := {}, step := step Guards.all }
 
